@@ -85,6 +85,11 @@ impl super::Authorizer {
 
             let mut block = proto_snapshot_block_to_token_block(block)?;
 
+            // in a snapshot every block, third-party or not, refers to the snapshot's tables
+            if block.external_key.is_some() {
+                block.symbols = token_symbols.clone();
+            }
+
             if let Some(key) = block.external_key.as_ref() {
                 public_key_to_block_id
                     .entry(authorizer.symbols.public_keys.insert(key) as usize)
